@@ -388,6 +388,76 @@ theorem listBandIds_runs {w : World} (hq : w.Quiet) (hroot : w.store.get? .root 
   simp only [roResp, listResp, hroot, pure_def]
   exact (Runs.ret' hn _).congr (congrArg Outcome.ok (bandIds_listing _)) rfl rfl
 
+/-! ### The second look `backup` takes at the gc lock -/
+
+/-- What `gcLockListed` answers on a store: does the listing of the archive directory show a
+FILE named GC_LOCK? -/
+def lockListedOf (s : Store) : Bool :=
+  (s.children .root).any fun e => e.key == .gcLock && !e.isDir
+
+/-- No GC_LOCK in the store: the listing shows none. -/
+theorem lockListedOf_of_get?_none {s : Store} (h : s.get? .gcLock = none) : lockListedOf s = false := by
+  simp only [lockListedOf, Store.children, List.any_map, List.any_filter, List.any_eq_false]
+  rintro ⟨k, v⟩ hm
+  by_cases hk : k = .gcLock
+  · subst hk
+    induction s with
+    | nil => cases hm
+    | cons kv s ih =>
+      obtain ⟨k', v'⟩ := kv
+      by_cases hk' : Key.gcLock = k'
+      · subst hk'; simp [Store.get?, List.lookup] at h
+      · have hne : (Key.gcLock == k') = false := by simpa using hk'
+        simp only [Store.get?, List.lookup, hne] at h
+        rcases List.mem_cons.mp hm with he | hm
+        · cases he; exact absurd rfl hk'
+        · exact ih h hm
+  · simp [hk]
+
+/-- With unique keys, the listing shows a file GC_LOCK iff there is one (`fileAt`), i.e. both looks
+at the lock agree on the same store. -/
+theorem lockListedOf_eq_fileAt {s : Store} (hn : UniqueKeys s) : lockListedOf s = fileAt s .gcLock := by
+  cases hg : s.get? .gcLock with
+  | none => rw [lockListedOf_of_get?_none hg]; simp [fileAt, hg]
+  | some v =>
+    simp only [fileAt, hg]
+    have hm := Store.mem_of_get?' hg
+    cases hv : v.isDir with
+    | false =>
+      simp only [lockListedOf, Store.children, List.any_map, List.any_filter, Bool.not_false, List.any_eq_true]
+      exact ⟨(.gcLock, v), hm, by simp [Key.parent, hv]⟩
+    | true =>
+      simp only [lockListedOf, Store.children, List.any_map, List.any_filter, Bool.not_true, List.any_eq_false]
+      rintro ⟨k, v'⟩ hm'
+      by_cases hk : k = .gcLock
+      · subst hk
+        have := Store.get?_of_mem_unique hn hm'
+        rw [hg] at this
+        cases this
+        simp [hv]
+      · simp [hk]
+
+/-- `gcLockListed` when the archive root is a directory: never fails, answers `lockListedOf`,
+changes nothing. -/
+theorem gcLockListed_runs {w : World} (hq : w.Quiet) (hroot : w.store.get? .root = some .dir) :
+    Runs gcLockListed w (.ok (lockListedOf w.store)) w.store [] := by
+  simp only [gcLockListed, perform, bind_def, op_bind, ret_bind]
+  refine Runs.op_ro hq rfl fun w1 hn => ?_
+  simp only [roResp, listResp, hroot, pure_def]
+  exact Runs.ret' hn _
+
+/-- `gcLockListed` when there is no archive directory / it is not a directory. -/
+theorem gcLockListed_runs_err {w : World} (hq : w.Quiet) (hroot : w.store.get? .root ≠ some .dir) :
+    Runs gcLockListed w
+      (.err (.transport (if w.store.get? .root = none then .notFound else .other))) w.store [] := by
+  simp only [gcLockListed, perform, bind_def, op_bind, ret_bind]
+  refine Runs.op_ro hq rfl fun w1 hn => ?_
+  simp only [roResp, listResp]
+  cases hk : w.store.get? .root with
+  | none => exact Runs.fail' hn _
+  | some v =>
+    cases v <;> first | exact absurd hk hroot | exact Runs.fail' hn _
+
 /-- `listBandIds` when there is no archive directory / it is not a directory. -/
 theorem listBandIds_runs_err {w : World} (hq : w.Quiet) (hroot : w.store.get? .root ≠ some .dir) :
     Runs listBandIds w
